@@ -116,7 +116,15 @@ fn walk_type(
                 walk_type(a, module, item, em, table, used, out);
             }
             if p.path.leading_colon.is_some() || segs.first().map(|s| s == "crate").unwrap_or(false) {
-                return; // external: not rooted at the types module
+                // external: not rooted at the types module. One thing rustc rejects whatever the path means:
+                // a global path (`::x`) cannot start with `crate`, `self` or `super` (E0433)
+                if p.path.leading_colon.is_some() && segs.first().map(|s| matches!(s.as_str(), "crate" | "self" | "super" | "Self")).unwrap_or(false) {
+                    out.push((
+                        "global-path-starts-with-keyword".into(),
+                        format!("in {}: `::{}` is not a valid path (global paths cannot start with `{}`)", item.path.join("::"), segs.join("::"), segs[0]),
+                    ));
+                }
+                return;
             }
             if segs.len() == 1 && item.generics.contains(&segs[0]) && args.is_empty() {
                 used.insert(segs[0].clone());
